@@ -10,6 +10,7 @@
     atomicity of std::fs::write is outside the model, and that the language server publishes
     a diagnostic exactly when the other two fail. *)
 From Oal Require Import Cli CliProofs.
+From Oal Require Diag DiagProofs.
 
 Theorem C13_failure_leaves_fs : forall Doc Spec Base load_eval parse_base emit to_yaml writable cfg fs fs',
   Cli.run Doc Spec Base load_eval parse_base emit to_yaml writable cfg fs = (Failure, fs') -> fs' = fs.
@@ -43,3 +44,10 @@ Theorem C13_cli_wasm_agree : forall Doc Spec Base load_eval parse_base emit to_y
   end.
 Proof. exact cli_wasm_agree. Qed.
 Print Assumptions C13_cli_wasm_agree.
+
+(** the language server shows a diagnostic exactly when the compilation reported an error
+    (diagnostics bookkeeping of Model/Diag.v, whatever the history before the refresh) *)
+Theorem C13_lsp_diagnostic_iff_error : forall st docs errs, DiagProofs.inv st ->
+  (exists l, Diag.vget (Diag.s_view (Diag.refresh st docs errs)) l <> []) <-> errs <> [].
+Proof. exact DiagProofs.diagnostic_iff_error. Qed.
+Print Assumptions C13_lsp_diagnostic_iff_error.
